@@ -15,6 +15,12 @@
 
 extern crate graaf;
 
+/// Marker for `expect=panic` harnesses: placed right after a call the
+/// documentation rejects. Reaching it means the call returned normally.
+pub fn rejected_call_returned() -> ! {
+    panic!("REJECTED-CALL-RETURNED: a call that the documentation rejects returned normally")
+}
+
 pub mod cx;
 #[cfg(not(kani))]
 #[path = "kani_shim.rs"]
@@ -33,5 +39,13 @@ pub mod c06_dfs;
 pub mod c07_bellman_ford;
 pub mod c08_floyd_warshall;
 pub mod c09_tarjan;
+pub mod c11_ops;
+pub mod c12_predicates;
+pub mod c13_memory;
+pub mod c14_generators;
+pub mod c15_random;
+pub mod c16_conversions;
+pub mod c17_threads;
 pub mod c18_distance_matrix;
+pub mod c20_eq_ord_hash;
 pub mod c19_predecessor_tree;
